@@ -4,6 +4,9 @@ import BctVerif.Model.Basic
 
 Routines modelled (exact arithmetic over core `Rat` / `Int`, no Mathlib):
 
+Weighted inputs are rational matrices (`QMat n`); the driver receives integer numerators and one common
+denominator `den=` (`scaleQ`).
+
 * `mean_first_passage_time` (distance.py) : `P = D⁻¹A`, stationary `w`, `Z = (I − P + 1wᵀ)⁻¹`,
   `M i j = (Z j j − Z i j) / w j`.
 * `diffusion_efficiency` (efficiency.py) : elementwise inverse of `M` off the diagonal and its mean.
@@ -43,6 +46,9 @@ def anyFin (n : Nat) (p : Fin n → Bool) : Bool := (List.finRange n).any p
 def delta {n : Nat} (i j : Fin n) : Rat := if i = j then 1 else 0
 
 def toQ {n : Nat} (A : AMat Int n) : QMat n := AMat.map (fun (x : Int) => (x : Rat)) A
+
+/-- weighted input `A / den` (the harness sends numerators and one common denominator) -/
+def scaleQ {n : Nat} (A : AMat Int n) (den : Nat) : QMat n := AMat.ofFn fun i j => (A.get i j : Rat) / (den : Rat)
 
 /-! ## exact Gauss–Jordan elimination on an augmented matrix `[A | B]` -/
 
@@ -94,8 +100,8 @@ def stationary {n : Nat} (P : QMat n) (w : QVec n) : Bool :=
 def rowSum {n : Nat} (A : QMat n) (i : Fin n) : Rat := fsum fun j => A.get i j
 
 /-- `P = solve(diag(sum(A, axis=1)), A)` -/
-def transition {n : Nat} (A : AMat Int n) : QMat n :=
-  AMat.ofFn fun i j => (toQ A).get i j / rowSum (toQ A) i
+def transition {n : Nat} (W : QMat n) : QMat n :=
+  AMat.ofFn fun i j => W.get i j / rowSum W i
 
 /-- `I − P + W`, `W = repeat(w, n, 0)` -/
 def fundArg {n : Nat} (P : QMat n) (w : QVec n) : QMat n :=
@@ -109,9 +115,9 @@ structure MfptOut (n : Nat) where
 
 /-- The stationary vector is obtained from `(I − P + 11ᵀ)ᵀ w = 1` (for an irreducible chain this has
 the stationary distribution as unique solution) instead of an eigen-solver, and is then certified. -/
-def mfpt {n : Nat} (A : AMat Int n) : Except WErr (MfptOut n) :=
-  if anyFin n fun i => rowSum (toQ A) i == 0 then .error .singular else
-  let P := transition A
+def mfpt {n : Nat} (W : QMat n) : Except WErr (MfptOut n) :=
+  if anyFin n fun i => rowSum W i == 0 then .error .singular else
+  let P := transition W
   let C : QMat n := AMat.ofFn fun i j => delta i j - P.get j i + 1
   match solveVec C (Vector.ofFn fun _ => 1) with
   | none => .error .singular
@@ -131,8 +137,8 @@ structure DiffOut (n : Nat) where
   E : QMat n
   g : Rat
 
-def diffEff {n : Nat} (A : AMat Int n) : Except WErr (DiffOut n) :=
-  match mfpt A with
+def diffEff {n : Nat} (W : QMat n) : Except WErr (DiffOut n) :=
+  match mfpt W with
   | .error e => .error e
   | .ok o =>
     if anyFin n fun i => anyFin n fun j => i != j && o.M.get i j == 0 then .error .zerodiv else
@@ -143,13 +149,13 @@ def diffEff {n : Nat} (A : AMat Int n) : Except WErr (DiffOut n) :=
 /-! ## PageRank -/
 
 /-- `deg = sum(A, axis=0); deg[deg == 0] = 1` -/
-def colDeg {n : Nat} (A : AMat Int n) (j : Fin n) : Rat :=
-  let s := fsum fun i => (toQ A).get i j
+def colDeg {n : Nat} (W : QMat n) (j : Fin n) : Rat :=
+  let s := fsum fun i => W.get i j
   if s = 0 then 1 else s
 
 /-- `B = eye(N) − d · A · diag(1/deg)` -/
-def prMat {n : Nat} (A : AMat Int n) (d : Rat) : QMat n :=
-  AMat.ofFn fun i j => delta i j - d * ((toQ A).get i j / colDeg A j)
+def prMat {n : Nat} (W : QMat n) (d : Rat) : QMat n :=
+  AMat.ofFn fun i j => delta i j - d * (W.get i j / colDeg W j)
 
 /-- `falff / sum(falff)`, or the uniform prior -/
 def prior {n : Nat} (f : Option (Vector Int n)) : Except WErr (QVec n) :=
@@ -164,7 +170,7 @@ structure PrOut (n : Nat) where
   r0 : QVec n     -- solution of the linear system
   r : QVec n      -- r0 / Σ r0
 
-def pagerank {n : Nat} (A : AMat Int n) (d : Rat) (f : Option (Vector Int n)) : Except WErr (PrOut n) :=
+def pagerank {n : Nat} (A : QMat n) (d : Rat) (f : Option (Vector Int n)) : Except WErr (PrOut n) :=
   match prior f with
   | .error e => .error e
   | .ok nf =>
@@ -286,14 +292,18 @@ def parseIVec (n : Nat) (s : String) : Option (Vector Int n) := do
 def runOp (op : String) (kv : List (String × String)) : Option String := do
   let n ← (← lookup kv "n").toNat?
   let A ← parseMat n (← lookup kv "A")
+  let den ← (match lookup kv "den" with
+    | none => some 1
+    | some s => do let d ← s.toNat?; if d = 0 then none else some d)
+  let W := scaleQ A den
   let err := fun (e : WErr) => s!"error={e.str}"
   match op with
   | "mfpt" =>
-    match mfpt A with
+    match mfpt W with
     | .error e => some (err e)
     | .ok o => some s!"M={showQMat o.M} w={showQVec o.w}"
   | "diffeff" =>
-    match diffEff A with
+    match diffEff W with
     | .error e => some (err e)
     | .ok o => some s!"g={showRat o.g} E={showQMat o.E}"
   | "pagerank" =>
@@ -301,7 +311,7 @@ def runOp (op : String) (kv : List (String × String)) : Option String := do
     let f ← (match lookup kv "f" with
       | none => some none
       | some s => do some (some (← parseIVec n s)))
-    match pagerank A d f with
+    match pagerank W d f with
     | .error e => some (err e)
     | .ok o => some s!"r={showQVec o.r} s={showRat (fsum fun i : Fin n => o.r0[i])}"
   | "findwalks" =>
